@@ -35,6 +35,7 @@ type FidCase struct {
 	Reads      [][2]int // (start, len-1) reduced modulo the tree size at run time
 	ClockMs    int64
 	Indirect   bool // external issuance-chain storage (in-memory) instead of chains inside the backend leaf
+	Metrics    bool // process option --getentries_metrics: reads are also counted; what is served must not change
 }
 
 type FidItem struct {
@@ -50,7 +51,7 @@ func genFid(t *rapid.T) FidCase {
 		if rapid.IntRange(0, 4).Draw(t, "opaque") == 0 {
 			c.Items = append(c.Items, FidItem{Opaque: rapid.SliceOfN(rapid.Byte(), 1, 40).Draw(t, "ov"), Extra: rapid.SliceOfN(rapid.Byte(), 0, 20).Draw(t, "ox")})
 		} else {
-			s := world.GenSpec(t, fmt.Sprintf("c%d", i))
+			s := world.GenSpecX(t, fmt.Sprintf("c%d", i))
 			c.Items = append(c.Items, FidItem{Spec: &s})
 			if s.Cross && rapid.Bool().Draw(t, "twin") {
 				// another certificate from the same issuing CA whose path continues to the other root
@@ -70,6 +71,7 @@ func genFid(t *rapid.T) FidCase {
 	}
 	c.ClockMs = rapid.Int64Range(1, 4102444800000).Draw(t, "clock")
 	c.Indirect = rapid.IntRange(0, 2).Draw(t, "indirect") == 0
+	c.Metrics = rapid.IntRange(0, 2).Draw(t, "metrics") == 0
 	return c
 }
 
@@ -87,7 +89,11 @@ func addChainBody(chain [][]byte) []byte {
 func checkFid(t *testing.T, c FidCase) (v harness.Verdict) {
 	ctfe.MaxGetEntriesAllowed = c.Max
 	setAlign(c.Align)
-	defer func() { ctfe.MaxGetEntriesAllowed = 1000; setAlign(true) }()
+	setMetrics(c.Metrics)
+	defer func() { ctfe.MaxGetEntriesAllowed = 1000; setAlign(true); setMetrics(false) }()
+	if c.Metrics {
+		v.Class("getentries-metrics-on")
+	}
 	be := reflog.New(6962, 1)
 	be.MaxLeavesPerRange = c.BackendMax
 	clock := ctfex.NewClock(time.UnixMilli(c.ClockMs).Add(123456 * time.Nanosecond))
